@@ -265,12 +265,18 @@ func CheckCase(c Case) *ev.Violation {
 		if len(got[i]) != len(want[i]) {
 			return ev.V("object %d has keys %v, want %v\noutput: %q", i, keysOf(got[i]), keysOf(want[i]), out)
 		}
-		for j := range want[i] {
-			if got[i][j].key != want[i][j].key {
-				return ev.V("object %d key %d is %q, want %q\noutput: %q", i, j, got[i][j].key, want[i][j].key, out)
+		// the same members (a JSON object is unordered; duplicate keys were rejected while parsing)
+		have := map[string][]byte{}
+		for _, p := range got[i] {
+			have[p.key] = p.val
+		}
+		for _, p := range want[i] {
+			v, ok := have[p.key]
+			if !ok {
+				return ev.V("object %d lacks key %q (has %v)\noutput: %q", i, p.key, keysOf(got[i]), out)
 			}
-			if !bytes.Equal(got[i][j].val, want[i][j].val) {
-				return ev.V("object %d key %q has value %s, want %s\noutput: %q", i, got[i][j].key, got[i][j].val, want[i][j].val, out)
+			if !bytes.Equal(v, p.val) {
+				return ev.V("object %d key %q has value %s, want %s\noutput: %q", i, p.key, v, p.val, out)
 			}
 		}
 	}
